@@ -1,4 +1,4 @@
-import CalicoVerif.Proofs.C19b
+import CalicoVerif.Proofs.C19c
 /-!
 C19 — IPAM never gives one address to two live allocations.
 
@@ -44,41 +44,106 @@ example : ∃ s, run (St.init 100 2)
   decide
 
 
-/-- Handle records never under-count (the part of "handle records agree with block
-records" that IS true of the code): in every reachable state, for every real
-handle and block, the count in the handle object is at least the number of the
-block's addresses live for that handle plus all outstanding tokens — increments
-whose block write has not happened (yet, or ever: crash), and releases whose
-decrement has not happened.  Strict equality is false, see below. -/
+/-- Handle records agree with block records (code after repair 9cd85f1): in every
+reachable state in which no "stale delete" decrement happened (`stale = 0`, see
+below), for every real handle and block the handle's count EQUALS the number of the
+block's addresses live for that handle plus the outstanding tokens — increments
+whose block write has not happened (yet, or ever: crash) and releases whose
+decrement has not happened. -/
+theorem handle_block_agree (r0 nb : Nat) (evs : List Ev) (s : St)
+    (h : run (St.init r0 nb) evs = some s) (hst : s.stale = 0) : HEq s :=
+  (inv_run (inv_init r0 nb) h).2 hst
+
+/-- Quiescent agreement at full strength: with no token outstanding (nothing in flight,
+nothing abandoned) the handle count of every block equals the block's records. -/
+theorem handle_block_agree_quiescent (r0 nb : Nat) (evs : List Ev) (s : St)
+    (h : run (St.init r0 nb) evs = some s) (hst : s.stale = 0) (hq : s.creds = []) :
+    ∀ h' b, h' ≠ 0 → hcount s h' b = liveAt s b h' := by
+  intro h' b hh
+  have := handle_block_agree r0 nb evs s h hst h' b hh
+  rw [hq] at this
+  simpa [credTot] using this
+
+/-- Mid-operation statement: at every point of every execution (operations in flight,
+crashed threads) handle counts never under-count block records. -/
 theorem handle_ge_block_partial (r0 nb : Nat) (evs : List Ev) (s : St)
-    (h : run (St.init r0 nb) evs = some s) : HInv s :=
-  hinv_run (hinv_init r0 nb) h
+    (h : run (St.init r0 nb) evs = some s) (hst : s.stale = 0) :
+    ∀ h' b, h' ≠ 0 → liveAt s b h' + credTot h' b s.creds ≤ hcount s h' b := by
+  intro h' b hh
+  have := handle_block_agree r0 nb evs s h hst h' b hh
+  omega
 
-/-- The full-strength statement: with no token outstanding (nothing in flight, nothing
-abandoned by a crash) handle counts EQUAL block records. -/
-def HandleBlockAgree (s : St) : Prop :=
-  s.creds = [] → ∀ h b, h ≠ 0 → hcount s h b = liveAt s b h
+def w (t : Nat) (verb : Verb) (key : Key) (rev : Option Nat) (pl : Payload) : Ev :=
+  .call { t := t, fault := .none, verb := verb, key := key, rev := rev, pl := pl }
 
-/-- The event sequence of ONE fault-free `AutoAssign(num=2, handle 1)` that finds a
-block with a single free address: `incrementHandle(h, b, num = 2)` followed by the
-block write that can only take 1 address (ipam.go assignFromExistingBlock
-increments by `num`, not by `len(ips)`). -/
-def overcountTrace : List Ev :=
-  [.call { t := 1, fault := .none, verb := .create, key := .blk 0, rev := none, pl := .blkCreate 0 1 },
-   .call { t := 1, fault := .none, verb := .create, key := .hdl 1, rev := none, pl := .hInc 0 2 },
-   .call { t := 1, fault := .none, verb := .update, key := .blk 0, rev := some 101,
-           pl := .blkRmw [] (.assign 1 1 []) [] },
-   .endOp 1 [(0, 0)]]
+/-- FALSE without `stale = 0`: the log of the real client (fault free; replay
+corpus/C19/stale-delete.ops).  Threads 3 and 4 = `ReleaseByHandle(h1)`, thread 5 =
+`AssignIP(h1)`.  4 deletes the now empty, unaffine block; 3's compare-and-delete is
+answered NotFound, which `releaseByHandle` treats as success and goes on to
+`decrementHandle` for the address that 4 released (and 4 decrements too); in
+between 5 re-creates the block and allocates under the same handle: the handle
+object is deleted while an address is live for it. -/
+def staleTrace : List Ev :=
+  [w 1 .create (.aff 0 0) none (.affSt .pending),
+   w 1 .create (.blk 0) none (.blkCreate 0 2),
+   w 1 .update (.aff 0 0) (some 104) (.affSt .confirmed),
+   w 1 .create (.hdl 1) none (.hInc 0 1),
+   w 1 .update (.blk 0) (some 105) (.blkRmw [] (.assignIP 1 0) []),
+   .endOp 1 [(0, 0)],
+   w 2 .update (.aff 0 0) (some 106) (.affSt .pendingDeletion),
+   w 2 .update (.blk 0) (some 108) (.blkRmw [] .clearAff []),
+   w 2 .delete (.aff 0 0) (some 109) .affDel,
+   .endOp 2 [],
+   w 4 .delete (.blk 0) (some 110) (.blkDelete [] (some (.relh 1)) [0]),
+   w 3 .delete (.blk 0) (some 110) (.staleDel 1 1),
+   w 5 .create (.aff 1 0) none (.affSt .pending),
+   w 5 .create (.blk 0) none (.blkCreate 1 2),
+   w 5 .update (.aff 1 0) (some 113) (.affSt .confirmed),
+   w 5 .update (.hdl 1) (some 107) (.hInc 0 1),
+   w 5 .update (.blk 0) (some 114) (.blkRmw [] (.assignIP 1 1) []),
+   .endOp 5 [(0, 1)],
+   w 3 .update (.hdl 1) (some 116) (.hDec 0 1),
+   .endOp 3 [],
+   w 4 .delete (.hdl 1) (some 118) (.hDec 0 1),
+   .endOp 4 []]
 
-/-- …is false of the current code: the handle records 2 addresses for a block that
-records 1, with nothing in flight.  (Reproduced on the real ipamClient by the
-harness oracle `handle-ne-block-quiescent`; recorded in known_findings.txt.) -/
-theorem handle_block_agree_false :
-    ¬ (∀ evs s, run (St.init 100 2) evs = some s → HandleBlockAgree s) := by
+def staleEnd : St := (run (St.init 103 2) staleTrace).getD (St.init 0 0)
+theorem run_stale : run (St.init 103 2) staleTrace = some staleEnd := by rfl
+
+/-- Unconditional agreement — even the ≥ direction — is false of the current code. -/
+theorem handle_block_agree_unconditional_false :
+    ¬ (∀ evs s, run (St.init 103 2) evs = some s →
+        ∀ h b, h ≠ 0 → liveAt s b h + credTot h b s.creds ≤ hcount s h b) := by
   intro H
-  have h := H overcountTrace _ rfl rfl 1 0 (by decide)
-  revert h
+  have := H staleTrace staleEnd run_stale 1 0 (by decide)
+  revert this
   decide
+
+/-- "No token outstanding" is NOT the same as "every operation has returned": the log of
+a fault-free `AssignIP(h3)` (thread 2) whose block write met a CAS conflict
+(thread 1 wrote the block in between).  AssignIP retries WITHOUT taking back the
+handle increment it had made, increments again, and returns: its first token is
+never spent and the handle over-counts the block (2 vs 1) forever. -/
+def assignRetryTrace : List Ev :=
+  [w 2 .create (.aff 0 1) none (.affSt .pending),
+   w 2 .create (.blk 1) none (.blkCreate 0 8),
+   w 1 .update (.aff 0 1) (some 105) (.affSt .pending),
+   w 1 .update (.blk 1) (some 106) (.blkRmw [] .bump []),
+   w 1 .update (.aff 0 1) (some 107) (.affSt .confirmed),
+   w 2 .update (.aff 0 1) (some 105) .noev,
+   w 1 .create (.hdl 1) none (.hInc 1 1),
+   w 1 .update (.blk 1) (some 108) (.blkRmw [] (.assign 1 1 []) []),
+   .endOp 1 [(1, 0)],
+   w 2 .create (.hdl 3) none (.hInc 1 1),
+   w 2 .update (.blk 1) (some 106) .noev,
+   w 2 .update (.hdl 3) (some 112) (.hInc 1 1),
+   w 2 .update (.blk 1) (some 111) (.blkRmw [] (.assignIP 3 1) []),
+   .endOp 2 [(1, 1)]]
+
+theorem assignip_retry_overcounts :
+    ∃ s, run (St.init 104 2) assignRetryTrace = some s ∧ s.stale = 0 ∧
+      hcount s 3 1 = 2 ∧ liveAt s 1 3 = 1 ∧ credTot 3 1 s.creds = 1 :=
+  ⟨_, rfl, by decide, by decide, by decide, by decide⟩
 
 /-- Every address returned to a caller (`endOp` is admissible only then) is in the
 caller's `got` list … -/
@@ -102,8 +167,7 @@ theorem recorded_by_own_cas (r0 nb : Nat) (evs : List Ev) (s s' : St) (e : Ev)
       ∃ rv v h', s'.blk b = some (rv, v) ∧ v.slots[o]? = some (Slot.live h') :=
   got_grows_only_by_own_cas (wf_invariant r0 nb evs s hr) h hin hnot
 
-/-- non-vacuity of the invariants: the over-count trace is a run of the model. -/
-example : ∃ s, run (St.init 100 2) overcountTrace = some s ∧ hcount s 1 0 = 2 ∧ liveAt s 0 1 = 1 :=
-  ⟨_, rfl, by decide, by decide⟩
+/-- non-vacuity of the invariants: both logs are runs of the model. -/
+example : staleEnd.stale = 1 ∧ hcount staleEnd 1 0 = 0 ∧ liveAt staleEnd 0 1 = 1 := by decide
 
 end CalicoVerif.C19
